@@ -354,6 +354,21 @@ def check_ref(ctx, rf):
     w = repo.walker()
     from ..model import ref_strategies
     m = ref_strategies(repo)
+    roles = {r: fs for r, fs in m['all'].items() if len(fs) > 1}
+    if roles:
+        # _compile installs different functions in one role depending on a further test: each is judged in that role
+        for role, fs in roles.items():
+            for f in fs:
+                if f is not m[role]:
+                    m2 = dict(m); m2[role] = f; m2['all'] = {}
+                    _check_ref_roles(ctx, rf, m2)
+    _check_ref_roles(ctx, rf, m)
+
+
+def _check_ref_roles(ctx, rf, m):
+    repo = ctx.repo
+    rule = 'C08-ref'
+    w = repo.walker()
     # referencing a packet
     fi = m['unpack_packet']
     for p in w.paths(fi.node, cls=rf):
